@@ -664,7 +664,7 @@ def run_impl(cases):
                 m = re.search(r"title=([A-Za-z]+)", str(ex)) or re.match(r"\s*([A-Za-z]+(?:Error|Exception))\b", ex.text or "")
                 culprit = m.group(1) if m else (type(ex.__cause__).__name__ if ex.__cause__ is not None else "")
             o = {"out": cls, "pred_fail": "%s%s escaped" % (type(ex).__name__, ("(" + culprit + ")") if culprit else ""), "culprit": culprit}
-            if isinstance(ex, pydsdl.InternalError) and "integer string conversion" in str(ex):
+            if isinstance(ex, (pydsdl.InternalError, ValueError)) and "integer string conversion" in str(ex):
                 o["hint"] = "int-max-str-digits"  # only used to classify the open finding F21, never for a verdict
             return o
 
@@ -765,6 +765,11 @@ def known_finding(case, obs, known):
             # InternalError wrapping ValueError on a definition that contains an integer of 4300 or more decimal digits
             if obs.get("out") == "CInternal" and obs.get("culprit") in ("ValueError", "VisitationError") and \
                     (obs.get("hint") == "int-max-str-digits" or any(HUGE_INT.search(t) for t in texts)):
+                return "%s %s" % (k.get("id", "?"), k.get("description", "")[:200])
+            # the same conversion limit hit by an error-message formatter outside DSDLDefinition.read (e.g. the extents printed by the
+            # minor-version check in _namespace.py): the ValueError reaches the caller unwrapped. Both the limit's own message and
+            # a huge integer in the texts are required.
+            if obs.get("culprit") == "ValueError" and obs.get("hint") == "int-max-str-digits" and any(HUGE_INT.search(t) for t in texts):
                 return "%s %s" % (k.get("id", "?"), k.get("description", "")[:200])
         if sig.get("kind") == "offset-expansion":
             # InternalError wrapping OverflowError / MemoryError (or a raw MemoryError / a process that ran out of memory) on
